@@ -349,7 +349,9 @@ impl Protocol for V4 {
             // currently we can't conditionally set them based on v5 or v4,
             // so we ignore them, as properties can't be there in v4.
             Packet::ConnAck(connack, _) => connack::write(&connack, buffer)?,
-            Packet::Publish(publish, None) => publish::write(&publish, buffer)?,
+            // A publish stored from an MQTT 5 publisher carries properties; 3.1.1 has no
+            // place for them, so they are dropped towards v4 subscribers
+            Packet::Publish(publish, _) => publish::write(&publish, buffer)?,
             Packet::PubAck(puback, None) => puback::write(&puback, buffer)?,
             Packet::Subscribe(subscribe, None) => subscribe::write(&subscribe, buffer)?,
             Packet::SubAck(suback, None) => suback::write(&suback, buffer)?,
